@@ -28,6 +28,7 @@ struct TaskRec {
   int calls = 0;
   int inBody = 0;
   bool returnedFalse = false;
+  int falseTid = -1;
   uint64_t cancelReturnStep = 0;
   bool dtorReturned = false;
   bool detached = false;
@@ -63,8 +64,15 @@ static bool body(int idx) {
     r.firstCallAt = now;
   sim_event(7, idx, r.calls);
   if (r.returnedFalse) {
-    snprintf(cls, sizeof cls, "%s:invoked-after-false", schedName(r.sched));
-    sim_fail(cls, "function invoked again (call %d) after it returned false", r.calls);
+    // check-then-act (DESIGN.md section 6): an invocation that passed the library's cancelled-check before the
+    // flag was set may still run.  The library sets the flag with its 2nd atomic operation after the user
+    // function returned false; an invocation whose own last atomic load came later has no excuse.
+    uint64_t setAt = sim_marked_step(r.falseTid);
+    if (setAt != 0 && sim_last_load_step() > setAt) {
+      snprintf(cls, sizeof cls, "%s:invoked-after-false", schedName(r.sched));
+      sim_fail(cls, "function invoked again (call %d) although the cancelled flag was set at step %llu and this thread's last "
+               "atomic load is at step %llu", r.calls, (unsigned long long)setAt, (unsigned long long)sim_last_load_step());
+    }
   }
   if ((size_t)r.calls > r.timesToRun) {
     snprintf(cls, sizeof cls, "%s:more-than-timesToRun", schedName(r.sched));
@@ -82,6 +90,10 @@ static bool body(int idx) {
   bool ret = true;
   if (r.falseAfter && r.calls >= r.falseAfter) {
     ret = false;
+    if (!r.returnedFalse) {
+      r.falseTid = sim_tid();
+      sim_mark_after_atomics(2); // timesToRun.store(0), flags.fetch_or(cancelled)
+    }
     r.returnedFalse = true;
   }
   r.inBody--;
